@@ -6,8 +6,10 @@ import vlib, translate, build_repo
 
 t = time.time()
 print("translate:", {k: v.get("error", "ok") for k, v in translate.run().items()})
-ok, log, wall = vlib.lake_build(["SimuVerif", "driver"])
-print("lake build SimuVerif driver: ok=%s %.0fs" % (ok, wall))
+import re
+exes = re.findall(r'name = "(drv_\w+)"', open(os.path.join(vlib.LEAN, "lakefile.toml")).read())
+ok, log, wall = vlib.lake_build(["SimuVerif"] + exes)
+print("lake build SimuVerif %s: ok=%s %.0fs" % (" ".join(exes), ok, wall))
 if not ok:
     print(log[-4000:])
 objs, n = build_repo.build_objects()
